@@ -510,10 +510,16 @@ func (o *Opts) CommandStep() *Node {
 		}
 		// both spellings of the command key in one step (the main key wins, wherever it is written)
 		if o.BothCommandKeys && o.Aliases && cform != 5 && t.Draw(8, "cmd:both-keys") == 7 {
+			second := func() *Node {
+				if t.Draw(2, "cmd:both-keys-list") == 1 {
+					return o.commandList()
+				}
+				return Str(o.str("command"))
+			}
 			if m.Has("command") && !m.Has("commands") {
-				m.Set("commands", Str(o.str("command")))
+				m.Set("commands", second())
 			} else if m.Has("commands") && !m.Has("command") {
-				m.Set("command", Str(o.str("command")))
+				m.Set("command", second())
 			}
 		}
 	})
